@@ -385,7 +385,7 @@ def merge_cases():
     """token sequences that one of the merging / re-reading heuristics of canonicalization takes for ONE thing (arc + sin, | |, digit
     groups, primes, dots, letters of a function name, element symbols, d x, operator digraphs, a token and a blank) as the complete
     child list of an element whose children have fixed roles (one sequence member per role) and of the wrappers that imply a row -
-    alone and after 'x +' / 'H +'.  A merge that is right in a row takes a child away from a fraction or a script here."""
+    alone, after 'x +' / 'H +', before '+ 2', between both, and directly after x / sin / 2.  A merge that is right in a row takes a child away from a fraction or a script here."""
     from terms import mi, mn, mo, mtext, row, el, T
     seqs = [("arc-sin", lambda: [mi("arc"), mi("sin")]), ("arc-cos-mtext", lambda: [mtext("arc\u00a0"), mi("cos")]), ("bars", lambda: [mo("|"), mo("|")]),
             ("digits", lambda: [mn("1"), mn("2")]), ("decimal", lambda: [mn("1"), mo("."), mn("5")]), ("grouped", lambda: [mn("1"), mo(","), mn("234")]),
@@ -399,7 +399,8 @@ def merge_cases():
             ("sin-x", lambda: [mi("sin"), mi("x")]), ("lim-x", lambda: [mi("lim"), mi("x")]), ("1-st", lambda: [mn("1"), mtext("st")]), ("x-bang", lambda: [mi("x"), mo("!")])]
     fixed = {2: ["mfrac", "msup", "msub", "mroot", "munder", "mover"], 3: ["msubsup", "munderover", "mmultiscripts"]}
     wrappers = ["msqrt", "mstyle", "mpadded", "menclose", "mtd", "mrow"]
-    ctxs = [("alone", lambda e: e), ("x+", lambda e: row(mi("x"), mo("+"), e)), ("H+", lambda e: row(mi("H"), mo("+"), e)), ("+2", lambda e: row(e, mo("+"), mn("2")))]
+    ctxs = [("alone", lambda e: e), ("x+", lambda e: row(mi("x"), mo("+"), e)), ("H+", lambda e: row(mi("H"), mo("+"), e)), ("+2", lambda e: row(e, mo("+"), mn("2"))),
+            ("x+_+2", lambda e: row(mi("x"), mo("+"), e, mo("+"), mn("2"))), ("x_", lambda e: row(mi("x"), e)), ("sin_", lambda e: row(mi("sin"), e)), ("2_", lambda e: row(mn("2"), e))]
     out = []
     for sn, sf in seqs:
         for parent in fixed.get(len(sf()), []) + wrappers:
